@@ -44,6 +44,7 @@ func c04Stmts(seed string) []*Stmt {
 		upd("k", k(20), Leaf{"k", "=", k(2)}),                       // 6 key-changing update
 		upd("v", vBig, Leaf{"k", "=", k(3)}),                        // 7 growing / relocating update
 		{Kind: "delete", Table: "t", Where: Leaf{"k", "=", k(1)}},   // 8 delete of the first row
+		upd("v", "s1", ForceScan(Leaf{"k", "=", k(1)})),             // 9 update of row 1 driven by a sequential scan
 	}
 }
 
